@@ -26,19 +26,30 @@ def frame(flags, samples):
     return rc.wire(rc.ID_STREAM, p)
 
 
-def setup(scale=0.01):
+def setup(scale=0.01, en=None, pre=False):
+    """en: the channels enabled in the client's view when the stream starts; pre: they are already enabled on the
+    device when the client connects (a previous session left them so) instead of being enabled by this client"""
     from nxslib.nxscope import NxscopeHandler
     from nxslib.proto.parse import Parser
+    en = EN if en is None else en
     refdev.install_fast_clock(scale)
     chans = refdev.simple_chans(N, typ=7, vdim=1)
     chans[1]["typ"] = 0x87          # the same data type with the "critical" flag set in the type byte
+    if pre:
+        for i in range(N):
+            chans[i]["en"] = bool(en[i])
     dev = refdev.RefDevice(chans, flags=3)
     nx = NxscopeHandler(dev, Parser())
     fin, res = refdev.run_with_watchdog(nx.connect, 20)
     assert fin and not isinstance(res, BaseException), res
-    nx.ch_enable([i for i in range(N) if EN[i]])
+    if not pre:
+        nx.ch_enable([i for i in range(N) if en[i]])
     nx.stream_start()
     return nx, dev
+
+
+EN_PATTERNS = [[True, True, False], [False, True, True], [True, False, True], [True, True, True], [False, False, True],
+               [True, False, False]]
 
 
 def teardown(nx):
@@ -97,8 +108,8 @@ def gen_script(rng, length):
     return script
 
 
-def run_script(script):
-    nx, dev = setup()
+def run_script(script, en=None, pre=False):
+    nx, dev = setup(en=en, pre=pre)
     qs = {}
     try:
         for it in script:
@@ -279,13 +290,15 @@ def main(run):
         dead = 0
         for _ in range(25 if not run.thorough else 250):
             script = gen_script(rng, rng.randrange(4, 26))
-            got = run_script(script)
+            en = rng.choice(EN_PATTERNS)
+            pre = rng.random() < 0.3
+            got = run_script(script, en, pre)
             dead += got.endswith("stream-thread-dead")
             if dead > 3:
                 break                # enough evidence; every further case would only wait for a dead thread
-            cases.append(dict(cmd="deliver %s %s" % ("".join("1" if e else "0" for e in EN), ";".join(script)), impl=got,
-                              oracle=None, kind="script", key=tuple(script), nontrivial="|" in got or "," in got,
-                              rerun=(lambda s=script: run_script(s))))
+            cases.append(dict(cmd="deliver %s %s" % ("".join("1" if e else "0" for e in en), ";".join(script)), impl=got,
+                              oracle=None, kind="script-pre" if pre else "script", key=(tuple(script), tuple(en), pre), nontrivial="|" in got or "," in got,
+                              rerun=(lambda s=script, en=en, pre=pre: run_script(s, en, pre))))
         for what, c, m in run.differential(cases):
             run.violation(what, {"call": c["cmd"][:4000], "implementation": c["impl"][:3000], "model": m[:3000]})
         if not run.violations:
